@@ -100,6 +100,34 @@ PINNED['dictMaterialize'] = '''/-- `DictionaryColumn.materialize`, translated st
 def dictMaterialize (self_values : List α) (self_encoding : List Nat) : Option (List α) :=
   Np.take self_values self_encoding'''
 
+PINNED['ctorResolve'] = '''/-- `FlatColumn.__init__, the block `if isinstance(self.type, OrsoTypes):` (the parameters parsed from a type name meet the keywords)`, translated statement by statement -/
+def ctorResolve {ET : Type} (self_element_type : Option ET) (self_precision self_scale self_length : Option Nat) (u_element_type : Option ET) (u_precision u_scale u_length : Option Nat) : Option (Option ET × Option Nat × Option Nat × Option Nat) :=
+  match (if self_element_type.isNone then
+     let self_element_type : Option ET := u_element_type;
+     self_element_type
+   else
+     self_element_type) with
+  | self_element_type =>
+  match (if self_precision.isNone then
+     let self_precision : Option Nat := u_precision;
+     self_precision
+   else
+     self_precision) with
+  | self_precision =>
+  match (if self_scale.isNone then
+     let self_scale : Option Nat := u_scale;
+     self_scale
+   else
+     self_scale) with
+  | self_scale =>
+  match (if self_length.isNone then
+     let self_length : Option Nat := u_length;
+     self_length
+   else
+     self_length) with
+  | self_length =>
+  some (self_element_type, self_precision, self_scale, self_length)'''
+
 PINNED['sparseResultDType'] = '''if (([vdt.kind, ddt.kind]).all (fun k => ([Kind.b, Kind.i, Kind.u, Kind.f, Kind.c]).contains k) || ((distinctCount ([vdt.kind, ddt.kind]) == 1) && (!([vdt.kind, ddt.kind]).contains (Kind.O)))) then NpDType.promote vdt ddt else NpDType.object'''
 
 PINNED['numpy_tables'] = {'rows': {'bool': {'bits': 8,
